@@ -151,7 +151,10 @@ struct SweepCtx {
 	unsigned shard = 0, shards = 1; bool thorough = false;
 	uint64_t evaluations = 0, nontrivial = 0, failedCases = 0;
 	std::vector<std::string> samples; std::vector<SweepFailure> failures; std::map<std::string, uint64_t> labels, kindCount;
+	std::string only;   // replay: visit just this case
 	bool mine(uint64_t idx) const { return idx % shards == shard; }
+	/// true when the enumerated case idx (described lazily by descFn) is not for this process
+	template <class F> bool skip(uint64_t idx, F descFn) const { if (!only.empty()) return descFn() != only; return idx % shards != shard; }
 	void sample(const std::string& s) { if (samples.size() < 4) samples.push_back(s); }
 	void fail(const std::string& kind, const std::string& caseDesc, const std::string& detail = {}) {
 		++failedCases; if (kindCount[kind]++ < 2 && failures.size() < 8) failures.push_back({ kind, caseDesc, detail });
@@ -270,24 +273,25 @@ inline CaseResult shrink(const PropInfo& p, CaseResult best, unsigned budget = 3
 	bool progress = true;
 	while (progress && budget) {
 		progress = false;
-		// 1. delete blocks
-		for (size_t blk : { size_t(16), size_t(8), size_t(4), size_t(2), size_t(1) }) {
+		// 1. lower values (0, then bisect towards the smallest value that still fails)
+		for (size_t i = 0; i < best.seq.size() && budget; i++) {
+			uint64_t v = best.seq[i]; if (v == 0) continue;
+			std::vector<uint64_t> cand = best.seq; cand[i] = 0; CaseResult r;
+			if (attempt(cand, r)) { best = std::move(r); progress = true; continue; }
+			uint64_t lo = 0, hi = v;
+			for (int it = 0; it < 10 && hi - lo > 1 && budget; it++) {
+				uint64_t mid = lo + (hi - lo) / 2; cand = best.seq; if (i >= cand.size()) break; cand[i] = mid;
+				if (attempt(cand, r)) { best = std::move(r); progress = true; hi = mid; } else lo = mid;
+			}
+		}
+		// 2. delete blocks, large to small
+		for (size_t blk = std::max<size_t>(1, best.seq.size() / 2); blk >= 1 && budget; blk /= 2) {
 			for (size_t i = 0; i + blk <= best.seq.size() && budget;) {
 				std::vector<uint64_t> cand(best.seq.begin(), best.seq.begin() + static_cast<long>(i));
 				cand.insert(cand.end(), best.seq.begin() + static_cast<long>(i + blk), best.seq.end());
-				CaseResult r; if (attempt(cand, r)) { best = std::move(r); progress = true; } else i += 1;
+				CaseResult r; if (attempt(cand, r)) { best = std::move(r); progress = true; } else i += blk;
 			}
-		}
-		// 2. truncate tail
-		for (size_t n = best.seq.size(); n > 0 && budget; n /= 2) { std::vector<uint64_t> cand(best.seq.begin(), best.seq.begin() + static_cast<long>(n / 2)); CaseResult r; if (attempt(cand, r)) { best = std::move(r); progress = true; } else break; }
-		// 3. lower values
-		for (size_t i = 0; i < best.seq.size() && budget; i++) {
-			uint64_t v = best.seq[i]; if (v == 0) continue;
-			for (uint64_t t : { uint64_t(0), v / 2, v - 1 }) {
-				if (t >= best.seq[i]) continue;
-				std::vector<uint64_t> cand = best.seq; cand[i] = t; CaseResult r;
-				if (attempt(cand, r)) { best = std::move(r); progress = true; if (i >= best.seq.size()) break; }
-			}
+			if (blk == 1) break;
 		}
 	}
 	return best;
@@ -393,7 +397,9 @@ inline int engine_main(int argc, char** argv, const char* unitName) {
 			std::string t = ss.str(); auto q1 = t.find('"', t.find(':', k)); auto q2 = t.find('"', q1 + 1); std::string sn = t.substr(q1 + 1, q2 - q1 - 1);
 			std::string want; if (auto d = t.find("\"kind\""); d != std::string::npos) { auto a = t.find('"', t.find(':', d)); auto b = t.find('"', a + 1); want = t.substr(a + 1, b - a - 1); }
 			for (auto& sw : sweep_registry()) if (sn == sw.name) {
-				SweepCtx sc; sc.thorough = thorough; sw.fn(sc);
+				SweepCtx sc; sc.thorough = true;
+				if (auto d = t.find("\"desc\""); d != std::string::npos) { auto a = t.find('"', t.find(':', d)); auto b = t.find('"', a + 1); sc.only = t.substr(a + 1, b - a - 1); }
+				sw.fn(sc);
 				for (auto& fl : sc.failures) if (want.empty() || fl.kind == want) { printf("REPLAY-FAIL prop=%s kind=%s detail=%s\n", sw.name, fl.kind.c_str(), json_escape(fl.caseDesc + " " + fl.detail).c_str()); return 1; }
 				printf("REPLAY-PASS prop=%s\n", sw.name); return 0;
 			}
